@@ -635,7 +635,7 @@ func (x *c08) rpc(op C08Op) error {
 	res, req, sig := e.run(tamper)
 	if res.Infra != nil {
 		x.cs.Inconclusive("watchdog")
-		return errInfra
+		return errInconclusive
 	}
 	exp, derr := e.expect()
 	x.cs.Class("rpc:" + e.kind)
@@ -683,6 +683,27 @@ func (x *c08) rpc(op C08Op) error {
 }
 
 func (x *c08) latest(op C08Op) error {
+	if op.Len == 1 {
+		// ask for the id the live contract will get when it is renewed: the
+		// host does not know it yet, must say so and must not remember it
+		id := x.live(op.C).ID.V2RenewalID()
+		before := x.snapshot()
+		logFrom := x.H.Log.Len()
+		_, err := x.R.LatestRevision(id)
+		if stop, e := infra(x.cs, err); stop {
+			return e
+		}
+		if err == nil {
+			return fmt.Errorf("latest revision of a contract id the host has never seen succeeded")
+		}
+		x.cs.Class("rpc:latest-unknown-id")
+		for _, c := range x.H.Log.Since(logFrom) {
+			if mutatingOps[c.Op] && !c.Failed() {
+				return fmt.Errorf("latest revision of an unknown id: host performed %s", c.Op)
+			}
+		}
+		return x.after("latest revision of an unknown id", &before, nil)
+	}
 	m := x.C[mod(op.C, len(x.C))]
 	resp, err := x.R.LatestRevision(m.ID)
 	if stop, e := infra(x.cs, err); stop {
@@ -731,7 +752,7 @@ func (x *c08) renew(op C08Op) error {
 	r := x.R.Renew(m.view(), prices, args, rhpx.Script{}, tamper)
 	if r.Infra != nil {
 		x.cs.Inconclusive("watchdog")
-		return errInfra
+		return errInconclusive
 	}
 	x.cs.Class("rpc:" + op.Op)
 	calls := x.H.Log.Since(logFrom)
@@ -860,7 +881,7 @@ func (x *c08) race(op C08Op) error {
 	wg.Wait()
 	if !x.H.Client.WaitIdle(rhpx.Watchdog) || ra.Infra != nil || rb.Infra != nil {
 		x.cs.Inconclusive("watchdog")
-		return errInfra
+		return errInconclusive
 	}
 	x.cs.Class("race")
 	calls := successfulCommits(x.H.Log.Since(logFrom))
@@ -993,6 +1014,7 @@ func genC08Op(t *rapid.T, nc int, allowRace bool) C08Op {
 		op.Off, op.Len = rapid.IntRange(0, 7).Draw(t, "off"), rapid.IntRange(0, 7).Draw(t, "len")
 	case k < 26:
 		op.Op = "latest"
+		op.Len = rapid.IntRange(0, 1).Draw(t, "future-id")
 	case k < 27:
 		op.Op = "renew"
 	case k < 28:
